@@ -179,20 +179,9 @@ func (n *Number) AsNode() (num Node) {
 		}
 		num = Int(i)
 	default:
-		f := float64(n.I)
-		if 0 < n.Frac {
-			f += float64(n.Frac) / float64(n.Div)
-		}
-		if n.Neg {
-			f = -f
-		}
-		if 0 < n.Exp {
-			x := int(n.Exp)
-			if n.NegExp {
-				x = -x
-			}
-			f *= math.Pow10(x)
-		}
+		// Same conversion as AsNum. Adding, dividing and scaling the parts in
+		// floating point is off by an ulp or more for many literals.
+		f, _ := n.AsNum().(float64)
 		num = Float(f)
 	}
 	return
